@@ -578,9 +578,11 @@ def r5(ctx):
       ok = got == want
       if ok and tname == 'PartitionMetadata':
         # replicas before isr in read order and in the tuple
-        a3, a4 = ctors[0].args[3].id, ctors[0].args[4].id
-        ln = dict((st.targets[0].id, st.lineno) for st in ast.walk(fn.node) if isinstance(st, ast.Assign) and isinstance(st.targets[0], ast.Name))
-        ok = ln.get(a3, 0) < ln.get(a4, 0)
+        ln = dict((st.targets[0].id, (st.lineno, -1)) for st in ast.walk(fn.node) if isinstance(st, ast.Assign) and isinstance(st.targets[0], ast.Name))
+
+        def at2(a):
+          return ln.get(a.id, (0, 0)) if isinstance(a, ast.Name) else (a.lineno, a.col_offset)
+        ok = at2(ctors[0].args[3]) < at2(ctors[0].args[4])
       if ok and tname in ('ProduceResponse', 'BrokerMetadata'):
         ln = dict((st.targets[0].id, (st.lineno, -1)) for st in ast.walk(fn.node) if isinstance(st, ast.Assign) and isinstance(st.targets[0], ast.Name))
 
